@@ -58,6 +58,10 @@ CORPUS = [
     ("js", "new Date(\"2006-01-02T15:04:05\")", "undef"), ("js", "new Date(\"Mon Jan 2 2006\")", "undef"), ("js", "new Date(1136214245000)", "ok"),
     ("js", "new Date(-1)", "ok"), ("js", "new Date()", "undef"), ("js", "new Date(2006, 0, 2)", "undef"), ("js", "new Date", "undef"),
     ("js", "new Foo()", "undef"), ("js", "new Date(\"2006-01-02T15:04:05.000Z\"", "invalid"), ("js", "Number.MAX_VALUE", "undef"),
+    ("js", "new Date(\"2021-03-14T01:59:26.535-03:-30\")", "invalid"), ("js", "new Date(\"2021-03-14T01:59:26.535+5:30\")", "invalid"),
+    ("js", "new Date(\"2021-03-14T01:59:26.535+0530\")", "invalid"), ("js", "new Date(\"2021-03-14T01:59:26.535+05:30x\")", "invalid"),
+    ("js", "new Date(\"2021-03-14T01:59:26.535 +05:30\")", "invalid"), ("js", "new Date(\"2021-03-14T01:59:26.535+24:00\")", "invalid"),
+    ("js", "new Date(\"2021-03-14T01:59:26.5Z\")", "undef"), ("js", "new Date(\"2021-03-14T01:59:26.535\")", "undef"),
     ("js", "[", "invalid"), ("js", "{\"a\":}", "invalid"), ("js", "{\"a\" 1}", "invalid"), ("js", "\"\xff\"", "invalid"),
 ]
 # texts that must denote the same value / different values
@@ -69,12 +73,18 @@ EQUAL = [
     ("js", "new Date(\"2006-01-02T15:04:05.000Z\")", "new Date(1136214245000)"), ("js", "new Date(\"2006-01-02T15:04:05.000Z\")", "new Date(\"2006-01-02T12:04:05.000-03:00\")"),
     ("js", "new Date(\"1969-12-31T23:59:59.999Z\")", "new Date(-1)"), ("js", "new Date(\"1970-01-01T00:00:00.000Z\")", "new Date(0)"),
     ("js", "new Date(\"2006-01-02T24:00:00.000Z\")", "new Date(\"2006-01-03T00:00:00.000Z\")"), ("js", "new Date(\"2000-02-29T00:00Z\")", "new Date(951782400000)"),
-    ("js", "new Date(\"0001-01-01T00:00:00.000Z\")", "new Date(-62135596800000)"), ("js", "-Infinity", "- Infinity"), ("js", "[1,2,]", "[1,2]"),
+    ("js", "new Date(\"0001-01-01T00:00:00.000Z\")", "new Date(-62135596800000)"),
+    ("js", "new Date(\"2000-01-01T00:00:30.000+00:01\")", "new Date(\"1999-12-31T23:59:30.000Z\")"),
+    ("js", "new Date(\"1999-12-31T12:00:00.000-12:00\")", "new Date(\"2000-01-01T00:00:00.000Z\")"),
+    ("js", "new Date(\"2021-03-14T01:59:26.535+14:00\")", "new Date(\"2021-03-13T11:59:26.535Z\")"),
+    ("js", "new Date(\"2021-03-14T01:59:26.535-09:30\")", "new Date(\"2021-03-14T11:29:26.535Z\")"), ("js", "-Infinity", "- Infinity"), ("js", "[1,2,]", "[1,2]"),
 ]
 DIFFER = [
     ("json", "1", "1.0000000000000000000000001"), ("json", "1e21", "1e22"), ("json", "-1", "1"), ("json", "\"a\"", "\"A\""),
     ("json", "[1,2]", "[2,1]"), ("json", "{\"a\":1}", "{\"a\":2}"), ("json", "null", "0"), ("json", "\"1\"", "1"), ("json", "[]", "{}"),
     ("js", "new Date(\"2006-01-02T15:04:05.000Z\")", "new Date(\"2006-01-02T15:04:05.001Z\")"), ("js", "new Date(\"2006-01-02T15:04:05.000+00:30\")", "new Date(\"2006-01-02T15:04:05.000-00:30\")"),
+    ("js", "new Date(\"2021-03-14T01:59:26.535-03:30\")", "new Date(\"2021-03-14T01:59:26.535-02:30\")"),
+    ("js", "new Date(\"2021-03-14T01:59:26.535-03:30\")", "new Date(\"2021-03-14T01:59:26.535+03:30\")"),
     ("js", "NaN", "Infinity"), ("js", "Infinity", "-Infinity"), ("js", "null", "undefined"),
 ]
 
